@@ -3,6 +3,8 @@ from __future__ import annotations
 
 import ast
 
+from ..resolve import Resolver
+
 from .. import terms as tm
 from ..loader import AnalysisError
 from ..report import rule
@@ -126,9 +128,13 @@ def r4(ctx):
     b = ana.builder(fi, no_inline=ana.known)
     arr, eps = Sym(fi.params[0]), Sym(fi.params[1])
     rt = b.return_term()
-    if not isinstance(rt, Sym):
+    rets = [n for n in Resolver.walk_own(fi.node) if isinstance(n, ast.Return)]
+    if isinstance(rt, Sym):
+        name = rt.name
+    elif len(rets) == 1 and isinstance(rets[0].value, ast.Name):
+        name = rets[0].value.id        # the returned local, whatever expression first bound it
+    else:
         raise AnalysisError(f"filter returns {str(rt)[:80]}: only the copy-or-alias + masked overwrite idiom is modelled")
-    name = rt.name
     stores = [s for s in b.stores() if s.base_name == name]
     others = [m for m in b.mutated.get(name, []) if not isinstance(m, ast.Assign)]
     if not ctx.check(len(stores) == 1 and not others and not stores[0].loops, fi, "the filter performs exactly one overwrite",
@@ -147,13 +153,17 @@ def r4(ctx):
     # the filtered object: copy when copy=True, the input itself otherwise
     cfg = ana.cfg(fi)
     defs = [n for n in cfg.nodes if name in n.defs and n.kind == "stmt"]
-    vals = {b.term(d.ast.value, d).key for d in defs if isinstance(d.ast, ast.Assign)}
+    vals = {v_.key for d in defs if isinstance(d.ast, (ast.Assign, ast.AnnAssign)) and d.ast.value is not None
+            for _g, v_ in tm.pieces_of(b.term(d.ast.value, d))}
     want = {App("numpy.copy", (arr,)).key, arr.key}
     ctx.check(vals == want, fi, "the filter works on numpy.copy(array) or, in in-place mode, on the array itself", role="filter:operand",
               expected="np.copy(array) | array", found=", ".join(sorted(vals)))
     # call chain: train_inverse := filter(reinflate(result), arguments.min_meaningful_covariance, copy=False)
     upd = ana.func(GL + "_update_cluster_covariances")
-    inline_only = {ana.func(GL + "_reconstruct_optimized_matrix").qualname}
+    try:
+        inline_only = {ana.func(GL + "_reconstruct_optimized_matrix").qualname}
+    except AnalysisError:
+        inline_only = set()       # already folded into its caller
     bu = ana.builder(upd, no_inline=lambda f: f.qualname not in inline_only)
     st = [s2 for s2 in bu.stores() if s2.attr == "train_inverse"]
     if len(st) != 1:
